@@ -1,6 +1,25 @@
 //! `RwLock` facade over `loom::sync::RwLock` (cargo feature `verif-loom`), so
 //! that a controlled scheduler sees every access to a mutable cell.
-use std::sync::LockResult;
+use loom::sync::atomic::{AtomicUsize, Ordering};
+use std::sync::{Arc, LockResult, Mutex};
+
+/// A variable every cell access also updates, when the harness installs one: accesses to
+/// *different* cells then conflict as far as the scheduler can tell, so it explores all their
+/// orders too, and state shared behind its back (a static, a cache inside a parsed program)
+/// becomes visible as a difference between schedules.
+static WORLD: Mutex<Option<Arc<AtomicUsize>>> = Mutex::new(None);
+
+pub fn set_world(world: Option<Arc<AtomicUsize>>) {
+    *WORLD.lock().unwrap() = world;
+}
+
+fn touch_world() {
+    // the guard is released before the scheduling point
+    let world = WORLD.lock().unwrap().clone();
+    if let Some(world) = world {
+        world.fetch_add(1, Ordering::SeqCst);
+    }
+}
 
 #[derive(Debug)]
 pub struct RwLock<T>(loom::sync::RwLock<T>);
@@ -11,10 +30,12 @@ impl<T> RwLock<T> {
     }
 
     pub fn read(&self) -> LockResult<loom::sync::RwLockReadGuard<'_, T>> {
+        touch_world();
         self.0.read()
     }
 
     pub fn write(&self) -> LockResult<loom::sync::RwLockWriteGuard<'_, T>> {
+        touch_world();
         self.0.write()
     }
 }
